@@ -7,9 +7,11 @@ Gen == IOEnv.VT_GEN
 NMax == atoi(IOEnv.VT_N)
 Hop(a, rtt, dest) == [s |-> a.s, b |-> a.b, rtt |-> rtt, dest |-> dest]
 T4 == Addr("198.51.100.9", <<198, 51, 100, 9>>)
-Doc(id, label, runs, rtts, enrich, skip, dns, names) ==
+DocX(id, label, runs, rtts, enrich, skip, dns, names, real, bound, reprobe, hit) ==
     [id |-> id, label |-> label, kind |-> "doc",
-     extra |-> [doc |-> [runs |-> runs, rtts |-> rtts, enrich |-> enrich, skip_private |-> skip, dns |-> dns, names |-> names]]]
+     extra |-> [doc |-> [runs |-> runs, rtts |-> rtts, enrich |-> enrich, skip_private |-> skip, dns |-> dns, names |-> names,
+                         realclock |-> real, bound_us |-> bound, reprobe |-> reprobe, hit |-> hit]]]
+Doc(id, label, runs, rtts, enrich, skip, dns, names) == DocX(id, label, runs, rtts, enrich, skip, dns, names, FALSE, 0, FALSE, <<>>)
 NoDNS == [x \in {} |-> ""]
 NoNames == [x \in {} |-> <<>>]
 RunOf(hops) == [dst |-> T4.b, dsts |-> T4.s, hops |-> hops]
@@ -29,13 +31,17 @@ C16All(u) ==
 \* C17: every private block boundary and its public neighbours, mapped forms, empty hops; with/without enrichment
 AddrSeq == SetToSeq(AllAddrs)
 C17All(u) ==
-    { Doc("C17/" \o (IF en THEN "enrich" ELSE "plain") \o "/" \o (IF sk THEN "skip" ELSE "keep") \o "/" \o ToString(k),
-          "redact/" \o AddrSeq[k].s \o "/len" \o ToString(Len(AddrSeq[k].b)) \o (IF en THEN "/enrich" ELSE "") \o (IF sk THEN "" ELSE "/keep"),
-          <<RunOf(<<Hop(AddrSeq[k], 3, FALSE), Hop(AddrSeq[((k + 4) % Len(AddrSeq)) + 1], 5, FALSE), Hop(NoAddr, 0, FALSE), Hop(T4, 9, TRUE)>>),
-            RunOf(<<Hop(AddrSeq[((k + 9) % Len(AddrSeq)) + 1], 2, TRUE)>>)>>,
+    { Doc("C17/" \o (IF en THEN "enrich" ELSE "plain") \o "/" \o (IF sk THEN "skip" ELSE "keep") \o "/" \o ToString(k) \o "/" \o ToString(sh),
+          "redact/" \o AddrSeq[k].s \o "/len" \o ToString(Len(AddrSeq[k].b)) \o (IF en THEN "/enrich" ELSE "") \o (IF sk THEN "" ELSE "/keep") \o "/shape" \o ToString(sh),
+          \* shape 2: unanswered TTLs BEFORE and BETWEEN the addressed hops
+          IF sh = 1
+          THEN <<RunOf(<<Hop(AddrSeq[k], 3, FALSE), Hop(AddrSeq[((k + 4) % Len(AddrSeq)) + 1], 5, FALSE), Hop(NoAddr, 0, FALSE), Hop(T4, 9, TRUE)>>),
+                 RunOf(<<Hop(AddrSeq[((k + 9) % Len(AddrSeq)) + 1], 2, TRUE)>>)>>
+          ELSE <<RunOf(<<Hop(NoAddr, 0, FALSE), Hop(AddrSeq[k], 3, FALSE), Hop(NoAddr, 0, FALSE), Hop(AddrSeq[((k + 4) % Len(AddrSeq)) + 1], 5, FALSE), Hop(T4, 9, TRUE)>>),
+                 RunOf(<<Hop(T4, 1, FALSE), Hop(NoAddr, 0, FALSE), Hop(AddrSeq[((k + 9) % Len(AddrSeq)) + 1], 2, TRUE)>>)>>,
           <<4, 0>>, en, sk,
           [a \in {x.s : x \in AllAddrs} \ {""} |-> "host-" \o a], [a \in {x.s : x \in AllAddrs} \ {""} |-> <<"host-" \o a>>])
-        : k \in DOMAIN AddrSeq, en \in BOOLEAN, sk \in BOOLEAN }
+        : k \in DOMAIN AddrSeq, en \in BOOLEAN, sk \in BOOLEAN, sh \in {1, 2} }
 
 \* C18(a): address multisets (duplicates, empty, mapped) x per-address resolver behaviour (names / empty list / error / slow)
 Behaviours == {"names", "two", "empty", "error", "slow"}
@@ -53,7 +59,31 @@ C18All(u) ==
              <<1>>, TRUE, FALSE, dns, nm)
       : bs \in [1..4 -> Behaviours], shape \in {1, 2} }
 
-Cases == CASE Gen = "C16" -> C16All(0) [] Gen = "C17" -> C17All(0) [] Gen = "C18" -> C18All(0) [] OTHER -> {}
+\* C18(b) through the enrichment stage: the same address looked up twice AT THE SAME TIME (it occurs twice in the document), one lookup
+\* answered at once and the other failing a second later; afterwards every scripted address is looked up again: the stored success
+\* must be returned without asking the resolver
+C18Dup(u) ==
+    { LET twice == IF ord = 1 THEN "n-" \o a.s \o ";+1000:!late-failure" ELSE "+1000:!late-failure;n-" \o a.s
+          runs == IF a = T4 THEN <<RunOf(<<Hop(E1, 3, FALSE), Hop(T4, 9, TRUE)>>)>>                         \* T4: destination of the run and its last hop
+                  ELSE <<RunOf(<<Hop(a, 3, FALSE), Hop(E2, 4, FALSE), Hop(NoAddr, 0, FALSE), Hop(a, 5, FALSE)>>)>>
+          other == IF a = T4 THEN E1 ELSE E2
+          dns == [x \in {a.s, other.s} \cup (IF a = T4 THEN {} ELSE {T4.s}) |-> IF x = a.s THEN twice ELSE IF x = T4.s THEN "!down" ELSE "n-" \o x]
+          nm == [x \in {a.s, other.s} |-> <<"n-" \o x>>]
+      IN DocX("C18/dup/" \o a.s \o "/" \o ToString(ord), "enrich/duplicate-concurrent/" \o ToString(Len(a.b)) \o "/" \o ToString(ord), runs, <<1>>, TRUE, FALSE, dns, nm,
+              FALSE, 0, TRUE, <<a.s, other.s>>)
+      : a \in {E1, E3, T4}, ord \in {1, 2} }
+
+\* C08: stalled resolvers. n distinct addresses whose lookups never answer: the enrichment stage is bounded by ONE lookup timeout (5 s),
+\* not by their sum. Real clock (see harness/doc_test.go), bound = 5 s + 2.5 s slack for a loaded machine.
+C08All(u) ==
+    { LET as == SubSeq(<<E1, E2, E4, Addr("9.9.9.9", <<9, 9, 9, 9>>), Addr("1.1.1.1", <<1, 1, 1, 1>>)>>, 1, n)
+          dns == [x \in {as[i].s : i \in 1..n} \cup {T4.s} |-> IF x = T4.s /\ ~all THEN "n-" \o x ELSE "~"]
+          nm == IF all THEN NoNames ELSE [x \in {T4.s} |-> <<"n-" \o x>>]
+      IN DocX("C08/dnsstall/" \o ToString(n) \o (IF all THEN "/all" ELSE "/butdest"), "dns-stall/" \o ToString(n) \o (IF all THEN "/all" ELSE "/butdest"),
+              <<RunOf([i \in 1..n |-> Hop(as[i], i, FALSE)] \o <<Hop(T4, 9, TRUE)>>)>>, <<1>>, TRUE, FALSE, dns, nm, TRUE, 7500000, FALSE, <<>>)
+      : n \in {1, 3, 5}, all \in BOOLEAN }
+
+Cases == CASE Gen = "C16" -> C16All(0) [] Gen = "C17" -> C17All(0) [] Gen = "C18" -> C18All(0) [] Gen = "C18dup" -> C18Dup(0) [] Gen = "C08" -> C08All(0) [] OTHER -> {}
 ASSUME LET c == Cases
            pk == IF NMax > 0 /\ Cardinality(c) > NMax THEN RandomSubset(NMax, c) ELSE c
        IN /\ ndJsonSerialize(IOEnv.VT_OUT, SetToSeq(pk))
